@@ -60,7 +60,8 @@ class Case:
         shutil.rmtree(self.dir, ignore_errors=True)
 
 
-def make_reference(case: Case, seed: int, n_genes: int, sec_near_start: float = 0.0):
+def make_reference(case: Case, seed: int, n_genes: int, sec_near_start: float = 0.0,
+                   context: float = 0.0):
     """fake genome + annotation (+ proteome by translation), written with the
     repository's writers as util/fuzz_test.py does."""
     _imports()
@@ -79,6 +80,16 @@ def make_reference(case: Case, seed: int, n_genes: int, sec_near_start: float = 
                         case.meta.setdefault('planted_sec', []).append(tx_id)
                 except Exception:   # noqa
                     pass
+    if context > 0:
+        prng2 = random.Random(seed ^ 0xC0DE)
+        for tx_id in list(anno.transcripts.keys()):
+            if prng2.random() < context:
+                try:
+                    hit = plant_context(anno, genome, prng2, tx_id)
+                except Exception:   # noqa
+                    hit = None
+                if hit:
+                    case.meta.setdefault('planted_context', []).append((tx_id,) + hit)
     proteome = aa.AminoAcidSeqDict()
     for tx_model in anno.transcripts.values():
         if not tx_model.is_protein_coding:
@@ -628,6 +639,17 @@ def dense_variants(anno, genome, tx_id: str, rng: random.Random, n: int, max_siz
     # (last base before a Sec or stop codon, first base behind it, …): conditions of the form
     # `end <= start_of_codon` vs `<` only show on these
     specials = list(foci[1:])
+    if special == 'stop' and kinds['stop'] and rng.random() < 0.6:
+        # an in-frame deletion that starts in front of the annotated stop codon and removes it
+        c = kinds['stop'][0]
+        pos, size = rng.choice([(c - 1, 3), (c - 4, 6), (c - 2, 3), (c - 3, 3), (c - 1, 6)])
+        try:
+            rec = small_variant(anno, genome, tx_id, pos, 'DEL', size, rng)
+        except Exception:   # noqa
+            rec = None
+        if rec is not None:
+            seen.add(rec.id)
+            out.append(rec)
     tries = 0
     while len(out) < n and tries < n * 20:
         tries += 1
@@ -653,6 +675,70 @@ def dense_variants(anno, genome, tx_id: str, rng: random.Random, n: int, max_siz
         seen.add(rec.id)
         out.append(rec)
     return out
+
+
+def set_tx_bases(anno, genome, tx_id: str, tx_pos: int, bases: str) -> bool:
+    """overwrite transcript positions [tx_pos, tx_pos+len) in the GENOME (strand-aware); False
+    if the stretch is not inside one exon"""
+    from Bio.Seq import Seq
+    tx_model = anno.transcripts[tx_id]
+    chrom = tx_model.transcript.chrom
+    strand = tx_model.transcript.strand
+    gs = [anno.coordinate_transcript_to_genomic(tx_pos + j, tx_id) for j in range(len(bases))]
+    if max(gs) - min(gs) != len(bases) - 1:
+        return False
+    comp = {'A': 'T', 'C': 'G', 'G': 'C', 'T': 'A'}
+    nts = list(str(genome[chrom].seq))
+    for g, b in zip(gs, bases):
+        nts[g] = b if strand == 1 else comp[b]
+    genome[chrom].seq = Seq(''.join(nts))
+    return True
+
+
+# (codons planted, offset of the SNV inside them, alt base): one base change creates or destroys
+# a cleavage site through the LOOK-AROUND of the trypsin rule or of its exception
+CONTEXT_MENU = [
+    ('TGTAAACCT', 2, 'G'),    # C K P -> W K P : site gained through the look-behind W
+    ('ATTCGTCCT', 2, 'G'),    # I R P -> M R P : site gained through the look-behind M
+    ('TGGAAACCT', 2, 'T'),    # W K P -> C K P : site lost
+    ('ATGCGTCCT', 2, 'T'),    # M R P -> I R P : site lost
+    ('AAAACTGGT', 3, 'C'),    # K T G -> K P G : site lost through the look-ahead P
+    ('AAACCTGGT', 3, 'A'),    # K P G -> K T G : site gained
+    ('TATAAAGAT', 1, 'G'),    # Y K D -> C K D : exception [CD]K|D starts to apply
+    ('TGTAAAGAT', 1, 'A'),    # C K D -> Y K D : exception stops applying
+    ('CGTCGTAAT', 6, 'C'),    # R R N -> R R H : exception RR|[HR] starts to apply
+    ('CGTCGTCAT', 6, 'A'),    # R R H -> R R N : exception RR|[HR] stops applying
+]
+
+
+def plant_context(anno, genome, rng: random.Random, tx_id: str):
+    """plant one CONTEXT_MENU motif into the CDS of a coding transcript (genome edited before the
+    reference files are written) and return (tx position, alt base) of the SNV that flips it"""
+    tx_model = anno.transcripts[tx_id]
+    if not tx_model.is_protein_coding or not tx_model.cds:
+        return None
+    chrom = tx_model.transcript.chrom
+    tx_seq = tx_model.get_transcript_sequence(genome[chrom])
+    if not tx_seq.orf:
+        return None
+    o0, o1 = int(tx_seq.orf.start), int(tx_seq.orf.end)
+    ncod = (o1 - o0) // 3
+    if ncod < 20:
+        return None
+    secs = {int(s.start) for s in tx_seq.selenocysteine}
+    for _ in range(20):
+        k = rng.randint(4, ncod - 8)
+        p = o0 + 3 * k
+        if any(p - 3 <= s0 <= p + 9 for s0 in secs):
+            continue
+        motif, off, alt = rng.choice(CONTEXT_MENU)
+        try:
+            ok = set_tx_bases(anno, genome, tx_id, p, motif)
+        except Exception:   # noqa
+            ok = False
+        if ok:
+            return (p + off, alt, motif)
+    return None
 
 
 def plant_sec(anno, genome, rng: random.Random, tx_id: str, near_start: bool = True) -> bool:
